@@ -10,7 +10,7 @@ from harness.core import sp
 PID = "C12"
 RULE = ("cases: (a) str2bool over every casing of the 10 vocabulary words, padded and non-words; (b) the negative-option "
         "string surgery of the real BooleanOptionalAction on parser-produced and synthetic option lists; (c) end-to-end "
-        "parses of occurrence sequences (bare / negative / valued / value-on-negative) in 6 prefix situations x dash "
+        "parses of occurrence sequences (bare / negative / valued / value-on-negative) in 8 prefix situations (incl. two-dot paths) x dash "
         "variants x custom negative prefix/option; exhaustive for sequences of length <= 2 (quick) / <= 3 (thorough) in "
         "the plain situation. Non-trivial = an end-to-end case with >= 2 occurrences or a prefixed situation, or a "
         "unit case with a dotted / multi-spelling option list; distinct by canonical JSON of the case.")
@@ -68,7 +68,7 @@ def occ_alphabet_full():
     return a
 
 
-SITUATIONS = ["plain", "auto2", "explicit2", "nested_gen", "member_auto", "both_gen"]
+SITUATIONS = ["plain", "auto2", "explicit2", "nested_gen", "member_auto", "both_gen", "nested_member", "explicit_member"]
 NEGS = [
     {"neg_prefix": None, "neg_option": None},
     {"neg_prefix": "--no-", "neg_option": None},
@@ -127,8 +127,11 @@ def gen(rng, tier):
         sit = rng.choice(SITUATIONS)
         default = rng.choice([True, False, None]) if sit in ("plain", "nested_gen", "both_gen") else rng.choice([True, False])
         occs = [rng.choice(full) for _ in range(rng.choice([0, 1, 1, 2, 2, 3, 4]))]
+        # an explicit negative option declared on a class used twice collides with itself unless a conflict prefix
+        # exists; in NESTED mode there is none, and the property does not promise anything there.
+        negs = NEGS[:3] if sit == "nested_member" else NEGS
         yield e2e_case(rng, occs, situation=sit, default=default, name=rng.choice(NAMES),
-                       dash=rng.choice(sp.ALL_DASH), neg=rng.choice(NEGS))
+                       dash=rng.choice(sp.ALL_DASH), neg=rng.choice(negs))
 
 
 # ------------------------------------------------------------------------------------------------
@@ -154,7 +157,9 @@ def _build(case):
     cfg = {"dash": c["dash"]}
     if sit == "explicit2":
         cfg["cr"] = "EXPLICIT"
-    if sit == "nested_gen":
+    if sit == "explicit_member":
+        cfg["cr"] = "EXPLICIT"
+    if sit in ("nested_gen", "nested_member"):
         cfg["gen"] = "NESTED"
     if sit == "both_gen":
         cfg["gen"] = "BOTH"
@@ -167,7 +172,7 @@ def _build(case):
         parser.add_arguments(C, dest="a")
         parser.add_arguments(C, dest="b")
         target, other = f"a.{c['name']}", f"b.{c['name']}"
-    elif sit == "member_auto":
+    elif sit in ("member_auto", "nested_member", "explicit_member"):
         P = dataclasses.make_dataclass("P", [("m", C, dataclasses.field(default_factory=C)),
                                              ("k", C, dataclasses.field(default_factory=C))])
         parser.add_arguments(P, dest="p")
